@@ -217,6 +217,13 @@ func judgeServer(b []byte, obs []srv.Obs, res sconn.Result, end sconn.End) (stri
 			ri++
 		case srv.IsRejection(r):
 			outcome = "rejected"
+			// a request that is well-formed by itself and rejected for its size (413): hertz has read its header,
+			// the method is known, and a response to HEAD has no body. (After a header block that hertz refuses
+			// the request header is reset and the server has no method it could trust; the connection is
+			// closed behind the answer.)
+			if ri < len(strict) && strict[ri].Method == "HEAD" && len(r.Body) > 0 && r.Status == 413 {
+				return "rejection-shape", fmt.Sprintf("the rejection (%d) of a HEAD request carries a body of %d bytes", r.Status, len(r.Body))
+			}
 			if i != len(rs)-1 {
 				return "rejection-shape", fmt.Sprintf("bytes were written after a rejection (status %d + Connection: close is message #%d of %d)", r.Status, i, len(rs))
 			}
@@ -327,7 +334,8 @@ func TestC03BodyLimit(t *testing.T) {
 			body = append(append([]byte(mpHead), fill...), mpTail...)
 			lines = append(lines, wire.KV{K: "Content-Type", V: "multipart/form-data; boundary=b"})
 		}
-		r := &wire.Req{Method: "POST", Target: "/upload", Proto: "HTTP/1.1", Body: body, BodyLen: n}
+		method := rapid.SampledFrom([]string{"POST", "POST", "PUT", "HEAD"}).Draw(t, "method")
+		r := &wire.Req{Method: method, Target: "/upload", Proto: "HTTP/1.1", Body: body, BodyLen: n}
 		if chunked {
 			lines = append(lines, wire.KV{K: "Transfer-Encoding", V: "chunked"})
 			r.Framing = wire.FrChunked
@@ -350,9 +358,9 @@ func TestC03BodyLimit(t *testing.T) {
 		cuts := gen.Cuts(t, len(b), []int{m.HeaderEnd, m.End})
 		obs, res, _ := server(false, limit).Run(sconn.Split(b, cuts), sconn.EOF)
 		over := n > limit
-		rec.Case(true, ev.Hash(b, []byte(fmt.Sprint(limit, cuts))), fmt.Sprintf("limit-%d", limit), map[bool]string{true: "over-limit", false: "within-limit"}[over], map[bool]string{true: "chunked", false: "content-length"}[chunked], map[bool]string{true: "multipart-body", false: "opaque-body"}[multipart])
+		rec.Case(true, ev.Hash(b, []byte(fmt.Sprint(limit, cuts))), fmt.Sprintf("limit-%d", limit), map[bool]string{true: "over-limit", false: "within-limit"}[over], map[bool]string{true: "chunked", false: "content-length"}[chunked], map[bool]string{true: "multipart-body", false: "opaque-body"}[multipart], "method-"+method)
 		fail := func(f string, a ...interface{}) {
-			t.Fatalf("limit=%d body=%d chunked=%v chunks=%v expect=%v multipart=%v cuts=%v: %s\noutput: %s", limit, n, chunked, r.ChunkSizes, r.Expect100, multipart, trim(cuts), fmt.Sprintf(f, a...), srv.Short(res.Output))
+			t.Fatalf("method=%s limit=%d body=%d chunked=%v chunks=%v expect=%v multipart=%v cuts=%v: %s\noutput: %s", method, limit, n, chunked, r.ChunkSizes, r.Expect100, multipart, trim(cuts), fmt.Sprintf(f, a...), srv.Short(res.Output))
 		}
 		if res.Panic != nil {
 			fail("panic: %v", res.Panic)
@@ -376,6 +384,9 @@ func TestC03BodyLimit(t *testing.T) {
 			}
 			if !res.Closed {
 				fail("connection not closed after 413")
+			}
+			if method == "HEAD" && len(finals[0].Body) > 0 {
+				fail("the 413 that answers a HEAD request carries a body of %d bytes", len(finals[0].Body))
 			}
 		} else {
 			// (a pre-parsed multipart body is handed to the handler re-marshalled: compare framing only)
